@@ -801,8 +801,12 @@ class SweepMachine:
                 x.temps[nm] = ('site_view', self.view_of_site(value))
             elif x.temps.get(nm, ('',))[0] in ('local_result', 'site_view'):
                 del x.temps[nm]                 # the name is rebound to something else
-            elif isinstance(value, (ast.BinOp, ast.Name, ast.Constant)) and nm not in x.temps:
-                a_ = try_affine(value, x.env_affine())
+            elif isinstance(value, (ast.BinOp, ast.Name, ast.Constant, ast.Attribute, ast.Call)) and nm not in x.temps and \
+                    not (isinstance(value, ast.Call) and norm(value.func) != 'len'):
+                # (the number of sites may be spelled <object>.nsites / len(<object>.A))
+                a_ = try_affine(value, x.env_affine(),
+                                {f'{self.psi}.nsites': self.Lv, f'{self.ham}.nsites': self.Lv},
+                                {f'{self.psi}.A': self.Lv, f'{self.ham}.A': self.Lv})
                 known = {'L'} | {v_ for v_, _, _ in self.loops}
                 if a_ is not None and a_.syms() <= known and not isinstance(getattr(value, 'value', 0), (str, float, bool)):
                     x.env[nm] = a_
